@@ -90,4 +90,19 @@ handler 2 under two mounts, `/api/7/x` a miss -/
 example : ((build C01.exApp).map fun t => ((search 9 (finalize true 9 t false) [[97, 112, 105], [55], [117]]).2,
     (search 9 (finalize true 9 t false) [[97, 112, 105], [55], [120]]).2)) = some (some 2, none) := by decide
 
+/-! ### what is NOT a theorem: "a path that a registered route matches is answered by a handler"
+
+The statement's first sentence presupposes it; the search does not go back, so it is false of the model and of the code alike (known finding
+KF-C01-dead-end).  The witness, decided on the very functions the correspondence run executes: with `/abc/def` (1) and `/:p/xyz` (2) the path
+`/abc/xyz` reaches handler 2 — the single-child chain `/abc/def` is one compressed pattern that fails as a whole —, with `/abc/ghi` (3) registered as
+well it reaches nothing, although route `/:p/xyz` still matches it segment by segment.  `hit_sound_scoped` and `miss_scoped` are the part that holds:
+a handler that runs is a matching route's, and nothing runs when no route matches. -/
+def deadEndApp (withSibling : Bool) : App :=
+  .mk 0 false ([([.static [97, 98, 99], .static [100, 101, 102]], 1), ([.param, .static [120, 121, 122]], 2)] ++
+    (if withSibling then [([.static [97, 98, 99], .static [103, 104, 105]], 3)] else [])) []
+
+theorem dead_end_witness :
+    ((build (deadEndApp false)).map fun t => (search 9 (finalize true 9 t false) [[97, 98, 99], [120, 121, 122]]).2) = some (some 2) ∧
+    ((build (deadEndApp true)).map fun t => (search 9 (finalize true 9 t false) [[97, 98, 99], [120, 121, 122]]).2) = some none := by decide
+
 end C01
